@@ -5,6 +5,7 @@ import (
 	"fmt"
 	"io"
 	"math/rand"
+	"reflect"
 	"sync"
 
 	"github.com/wkhere/bcl"
@@ -65,6 +66,10 @@ func driveConc(args []string) int {
 			if i%3 == 0 {
 				src += "print )\nvar = 1\n" // some callers report diagnostics
 			}
+			if i%4 == 1 {
+				// programs with hundreds of variables and constants: operands beyond the one-byte varint class
+				src = scaleSource("vars-distinct", 250+10*i+round)
+			}
 			srcs[i] = []byte(src)
 			want[i] = interpOutcome(srcs[i], i%2 == 1, seed+int64(i))
 		}
@@ -85,6 +90,40 @@ func driveConc(args []string) int {
 		for i := range srcs {
 			if got[i] != want[i] {
 				s.bad("a call running concurrently with others gave a different outcome than alone", "concurrent-callers", []byte(fmt.Sprintf("%q", srcs[i])), map[string]string{"alone": want[i], "concurrent": got[i]}, true)
+			}
+		}
+		// concurrent Unmarshal into targets of the same and of different (same-named) types
+		{
+			type outc struct {
+				a, b string
+			}
+			unm := func(i int) outc {
+				txt := fmt.Sprintf("def conf \"n%d\" { listen = %d; port = %d }\nbind conf -> struct\n", i, 7000+i, 80+i)
+				ta := reflect.New(confTagged())
+				tb := reflect.New(confPlain())
+				ea := bcl.Unmarshal([]byte(txt), ta.Interface(), bcl.OptLogger(io.Discard), bcl.OptOutput(io.Discard))
+				eb := bcl.Unmarshal([]byte(txt), tb.Interface(), bcl.OptLogger(io.Discard), bcl.OptOutput(io.Discard))
+				return outc{fmt.Sprintf("%+v %v", ta.Elem().Interface(), ea), fmt.Sprintf("%+v %v", tb.Elem().Interface(), eb)}
+			}
+			wantU := make([]outc, n)
+			for i := 0; i < n; i++ {
+				wantU[i] = unm(i)
+			}
+			gotU := make([]outc, n)
+			for i := 0; i < n; i++ {
+				wg.Add(1)
+				go func(i int) {
+					defer wg.Done()
+					gotU[i] = unm(i)
+				}(i)
+			}
+			wg.Wait()
+			s.Cases += n
+			s.Judged += n
+			for i := range gotU {
+				if gotU[i] != wantU[i] {
+					s.bad("a concurrent Unmarshal gave a different target or error than the same call alone", "concurrent-unmarshal", []byte(fmt.Sprint(i)), map[string]any{"alone": wantU[i], "concurrent": gotU[i]}, true)
+				}
 			}
 		}
 		// one shared Prog, executed from n goroutines
